@@ -293,7 +293,8 @@ cSmoke == << U({"one", "two"}, {"S", "SB"}, {"n", "e"}, 1, <<{"edges", "loose2"}
 
 cQuick == <<
   \* every edge kind / wrap / via / placement with one slot
-  U({"two", "dia"}, {"S"}, {"n", "e"}, 1, M1, "few"),
+  U({"two"}, {"S"}, {"n", "e"}, 1, M1, "few"),
+  U({"dia"}, {"S"}, {"n"}, 1, M1, "few"),
   \* service layouts x all filters / preserve arguments
   U({"two"}, {"SB", "SS", "SBB", "SSB", "BS", "inc"}, {"n", "r"}, 1, <<{"fn1", "loose2"}>>, "all"),
   \* default values that refer to constants of included files
